@@ -53,7 +53,7 @@ def size_of(G, kind):
 
 
 def group_tasks(tier):
-    gs = [G_.so2, G_.so3, G_.se2, G_.se3, G_.B1] if tier == "quick" else G_.CORE + G_.BUNDLES
+    gs = G_.CORE + G_.BUNDLES
     scal = ["d"] if tier == "quick" else ["d", "f"]
     return [(g.name, s) for g in gs for s in scal]
 
